@@ -95,7 +95,7 @@ SWObs ==
                          THEN Slot([u |-> nextId + i - 1, x |-> nextId + i - 1, l |-> cur[i].rec.l, b |-> nextId + i - 1], cur[i].lab, TRUE)
                          ELSE Slot(Rec(nextId + i - 1), cur[i].lab, TRUE)
                     ELSE cur[i]],
-      dEvals |-> NP]
+      dEvals |-> NP, sigmaOK |-> TRUE]
         : m \in [1..NP -> BOOLEAN]}
 
 \* ---------------------------------------------------------------- next-state relation
@@ -147,7 +147,7 @@ MCMutateEnd ==
 MCCommit ==
     /\ pc = "mutated"
     /\ LET o == [batch |-> [i \in DOMAIN cur |-> cur[i].rec], histLen |-> Len(hist) + 1,
-                 keyLens |-> <<Len(hist) + 1>>, prefixSame |-> TRUE, blobsOK |-> TRUE]
+                 keyLens |-> <<Len(hist) + 1>>, prefixSame |-> TRUE, blobsOK |-> TRUE, scalarsOK |-> TRUE]
        IN Take(CM_Clauses(o), CommitU(o))
     /\ atOne' = IF beta = cfg.one THEN atOne + 1 ELSE atOne
     /\ UNCHANGED <<nextId, ckvars>>
